@@ -201,6 +201,69 @@ def cw3(P, C):
                  "%s: %s (%s)" % (cal["name"], STATUS_MEMBERS[cal["name"]], why))
 
 
+def false_after_effect(P, g):
+    from . import ts
+    """callee g returns the literal false on a path on which it has already written a member: [(return node, writing node)]"""
+    pos = g.node_positions()
+    rets = []
+    for r in g.walk():
+        if g.k(r) == "ReturnStmt" and g.ch(r):
+            v = g.strip(g.ch(r)[0])
+            while g.k(v) == "ParenExpr" and g.ch(v):
+                v = g.strip(g.ch(v)[0])
+            if (g.k(v) == "CXXBoolLiteralExpr" and not g.nodes[v].get("v", g.nodes[v].get("cv", True))) or g.nodes[v].get("cv") == 0:
+                rets.append(r)
+    ws = [w for w in g.walk() if w in pos and ts.member_writes(g, w)]
+    out = []
+    for r in rets:
+        pr = pos.get(r)
+        if pr is None:
+            x = r
+            while x >= 0 and x not in pos:
+                x = g.parent[x]
+            pr = pos.get(x)
+        if pr is None:
+            continue
+        for w in ws:
+            pw = pos[w]
+            if (pw[0] == pr[0] and pw[1] < pr[1]) or (pw[0] != pr[0] and pr[0] in g.reachable_blocks(pw[0])):
+                out.append((r, w))
+                break
+    return out
+
+
+def cw3b(P, C):
+    C.rule("CW-3b", "a wrapper turns a C++ bool result into a non-zero return only where `false` means failure in the callee: a member that "
+           "returns false on a path on which it has already changed the table (write_key: false = an existing key was overwritten, the "
+           "operation succeeded) must not have its result mapped to an error — the C caller would be told that a call failed which did "
+           "change the table, unlike the C++ operation it wraps", floor=2)
+    n = 0
+    for f in wrappers(P):
+        for i, cal in f.calls():
+            if not cal or cal.get("cls", "").find("splinetable") < 0 or not cal.get("usr"):
+                continue
+            g = P.functions.get(cal["usr"])
+            if g is None or "bool" not in (g.d.get("rtype", "") or g.d.get("type", "")):
+                continue
+            # is the result tested, with a failing arm?
+            q, a = i, f.parent[i]
+            while a >= 0 and (f.k(a) in core.IMPLICIT_ONLY or f.k(a) in ("UnaryOperator", "ParenExpr")):
+                q, a = a, f.parent[a]
+            tested = a >= 0 and f.k(a) == "IfStmt" and q in set(f.walk(f.nodes[a]["cond"]))
+            mapped = False
+            if tested:
+                rets = returns_in(f, f.nodes[a]["then"]) + (returns_in(f, f.nodes[a]["else"]) if f.nodes[a]["else"] >= 0 else [])
+                mapped = any(fail_value_ok(f, r) for r in rets)
+            fe = false_after_effect(P, g)
+            n += 1
+            ok = not (mapped and fe)
+            C.ob("CW-3b", f.name, "%s<%s>" % (cal["name"], ",".join(str(t) for t in cal.get("targs", []))), ok, f.loc(i),
+                 ("%s: result %s; callee returns false only before any effect: %s" % (cal["name"], "mapped to an error" if mapped else "not mapped to an error", not fe)) if ok else
+                 "%s returns false at %s after it has changed the table at %s (an overwrite, not a failure), yet the wrapper returns non-zero when it sees false" %
+                 (cal["name"], g.loc(fe[0][0]), g.loc(fe[0][1])))
+    return n
+
+
 def _is_table_data(f, i):
     i = f.strip(i)
     n = f.nodes[i]
@@ -543,5 +606,6 @@ def run(P, C):
     cw1(P, C)
     cw2(P, C)
     cw3(P, C)
+    cw3b(P, C)
     cw4(P, C)
     cw5(P, C)
